@@ -50,6 +50,22 @@ def in_fork(fn: Any, *args: Any, timeout: float = RUN_TIMEOUT_S) -> Any:
         try:
             os.close(r)
             try:
+                import faulthandler
+                import gc
+
+                # a child that hangs leaves the stacks of all its threads behind (read by the
+                # parent when it gives up on the child)
+                # (a signal handler, not faulthandler's watchdog thread: that one does not survive
+                # the forks a run child makes itself)
+                _hang = open(os.path.join(env.scratch(), f"hang-{os.getpid()}.txt"), "w")
+                faulthandler.register(signal.SIGUSR2, file=_hang, all_threads=True, chain=False)
+                # same collector state in every child, whatever the forking worker did before:
+                # when cyclic garbage is collected (weak-reference callbacks, __del__) must be a
+                # function of the run, not of the worker's history
+                gc.collect()
+            except Exception:  # noqa: BLE001
+                pass
+            try:
                 out = ("ok", fn(*args))
             except BaseException:  # noqa: BLE001
                 out = ("err", traceback.format_exc())
@@ -81,12 +97,25 @@ def in_fork(fn: Any, *args: Any, timeout: float = RUN_TIMEOUT_S) -> Any:
         os.close(r)
     if hung:
         try:
+            os.kill(pid, signal.SIGUSR2)  # the child writes the stacks of all its threads
+            time.sleep(0.5)
             os.kill(pid, signal.SIGKILL)
         except ProcessLookupError:
             pass
         os.waitpid(pid, 0)
-        raise ChildFailure(f"HARNESS-HANG: run child exceeded {timeout:.0f}s wall clock")
+        stacks = ""
+        try:
+            with open(os.path.join(env.scratch(), f"hang-{pid}.txt")) as fh:
+                stacks = fh.read()[-6000:]
+            os.unlink(os.path.join(env.scratch(), f"hang-{pid}.txt"))
+        except OSError:
+            pass
+        raise ChildFailure(f"HARNESS-HANG: run child exceeded {timeout:.0f}s wall clock\n{stacks}")
     _, status = os.waitpid(pid, 0)
+    try:
+        os.unlink(os.path.join(env.scratch(), f"hang-{pid}.txt"))
+    except OSError:
+        pass
     if not chunks:
         raise ChildFailure(f"run child died without reporting (status {status})")
     kind, val = pickle.loads(b"".join(chunks))
@@ -652,6 +681,10 @@ def main(argv: list[str]) -> int:
             traceback.print_exc()
             return 2
     sys.stdout.flush()
+    import gc
+
+    gc.collect()
+    gc.freeze()  # the pristine image is never collected again: per-child collections stay cheap
 
     if a.replay:
         rc = replay(mod, a.replay, a.which, record_pad=a.record_pad)
